@@ -1,0 +1,110 @@
+//go:build verif
+
+package snaps
+
+import (
+	"github.com/gkampitakis/go-snaps/internal/colors"
+	"github.com/gkampitakis/go-snaps/internal/difflib"
+)
+
+// This file only exists under the `verif` build tag. It gives the external
+// verification harness (/verif) a way to drive and observe process-wide state
+// that is otherwise captured once at start-up. Nothing here is used by the library.
+
+// VerifSetMode overrides the three values captured from the environment at init.
+func VerifSetMode(ci bool, updateVar string) {
+	isCI = ci
+	updateVAR = updateVar
+	shouldClean = updateVAR == "true" || updateVAR == "clean"
+}
+
+// VerifGetMode returns the values as captured at init (or as last overridden).
+func VerifGetMode() (ci bool, updateVar string, clean bool) {
+	return isCI, updateVAR, shouldClean
+}
+
+// VerifSetNoColor switches colour output.
+func VerifSetNoColor(b bool) { colors.NOCOLOR = b }
+
+// VerifNoColor reports the colour switch.
+func VerifNoColor() bool { return colors.NOCOLOR }
+
+// VerifResetProcessState simulates a fresh test process: empty registries,
+// outcome counters and skip list.
+func VerifResetProcessState() {
+	testsRegistry = newRegistry()
+	standaloneTestsRegistry = newStandaloneRegistry()
+	testEvents = newTestEvents()
+	skippedTests = newSyncSlice()
+}
+
+// VerifCounters returns a copy of the outcome counters and the skip list.
+func VerifCounters() (failed, add, upd, pass int, skipped []string) {
+	testEvents.Lock()
+	failed, add, upd, pass = testEvents.items[erred], testEvents.items[added], testEvents.items[updated], testEvents.items[passed]
+	testEvents.Unlock()
+	skippedTests.Lock()
+	skipped = append(skipped, skippedTests.values...)
+	skippedTests.Unlock()
+	return
+}
+
+// VerifPrettyDiff is the comparison every Match* call uses.
+func VerifPrettyDiff(expected, received string) string {
+	return prettyDiff(expected, received, "", 0)
+}
+
+// VerifOpCode mirrors difflib.OpCode for callers outside the module's internal tree.
+type VerifOpCode struct {
+	Tag            int8
+	I1, I2, J1, J2 int
+}
+
+// VerifOpCodes returns the line edit script (full and grouped with the report's
+// context) that the failure report is rendered from, plus the split lines.
+func VerifOpCodes(a, b string) (aLines, bLines []string, full []VerifOpCode, grouped [][]VerifOpCode) {
+	aLines = splitNewlines(a)
+	bLines = splitNewlines(b)
+	m := difflib.NewMatcher(aLines, bLines)
+	for _, c := range m.VerifOpCodes() {
+		full = append(full, VerifOpCode{c.Tag, c.I1, c.I2, c.J1, c.J2})
+	}
+	m2 := difflib.NewMatcher(aLines, bLines)
+	for _, g := range m2.GetGroupedOpCodes(context) {
+		gg := make([]VerifOpCode, 0, len(g))
+		for _, c := range g {
+			gg = append(gg, VerifOpCode{c.Tag, c.I1, c.I2, c.J1, c.J2})
+		}
+		grouped = append(grouped, gg)
+	}
+	return
+}
+
+// Instrumentation-point runtime. The schedule engine rewrites an overlay copy of
+// this package so that file-system and lock operations call these; with no handler
+// installed they do nothing.
+var (
+	VerifPointHandler    func(site string)
+	VerifLockHandler     func(site string, try func() bool, lock func())
+	VerifUnlockedHandler func(site string)
+)
+
+func verifPoint(site string) {
+	if h := VerifPointHandler; h != nil {
+		h(site)
+	}
+}
+
+func verifLock(site string, try func() bool, lock func()) {
+	if h := VerifLockHandler; h != nil {
+		h(site, try, lock)
+		return
+	}
+	lock()
+}
+
+func verifUnlocked(site string) {
+	if h := VerifUnlockedHandler; h != nil {
+		h(site)
+	}
+}
